@@ -298,4 +298,322 @@ theorem agreeOn_same_env {env : Env} {s t : St} {d : Dep}
   | dir id => rfl
   | asset y => simp only [AgreeOn]; rw [h y rfl]
 
+/-! ## The invariant of a pass -/
+
+/-- the list respects the (initial) graph: whoever depends on a key of the list comes after it -/
+def DepsFirst (g0 : Graph) (post : List Key) : Prop :=
+  ∀ p1 y p2, post = p1 ++ y :: p2 → ∀ k n, g0.get (.asset k) = some n → Dep.asset y ∈ n.deps → k ∈ p2
+
+theorem DepsFirst.tail {g0 : Graph} {k : Key} {rest : List Key} (h : DepsFirst g0 (k :: rest)) : DepsFirst g0 rest :=
+  fun p1 y p2 e => h (k :: p1) y p2 (by rw [e]; rfl)
+
+/-- no (old) dependency of the head key is the head itself or comes later -/
+theorem DepsFirst.head_deps {g0 : Graph} {k : Key} {rest : List Key} (h : DepsFirst g0 (k :: rest))
+    (hnd : (k :: rest).Nodup) {n : GNode} (hn : g0.get (.asset k) = some n) {y : Key}
+    (hy : Dep.asset y ∈ n.deps) : y ∉ k :: rest := by
+  intro hm
+  obtain ⟨p1, p2, e⟩ := List.append_of_mem hm
+  have hk := h p1 y p2 e k n hn hy
+  have hnk := (List.nodup_cons.mp hnd).1
+  cases p1 with
+  | nil =>
+    simp only [List.nil_append, List.cons.injEq] at e
+    obtain ⟨_, e2⟩ := e
+    exact hnk (e2 ▸ hk)
+  | cons a p1' =>
+    simp only [List.cons_append, List.cons.injEq] at e
+    obtain ⟨_, e2⟩ := e
+    exact hnk (e2 ▸ List.mem_append_right _ (List.mem_cons_of_mem _ hk))
+
+/-- **Invariant of a pass** (`post` = the keys still to be processed, `g0` = the graph the list was
+sorted from): every asset that is not pending is settled under the new environment and reads no
+pending asset; the dependencies of a pending asset's node are still those of `g0`. -/
+structure PInv (env' : Env) (fuel : Nat) (g0 : Graph) (post : List Key) (s : St) (g : Graph) : Prop where
+  settled : ∀ k, k ∉ post → ∀ node c, g.get (.asset k) = some node → node.typed = true →
+    s.lookup k = some c → c.dyn = true →
+      SettledAt env' fuel s node k c ∧ ∀ y, y ∈ post → Dep.asset y ∉ reloadDeps env' fuel s k
+  olddeps : ∀ k, k ∈ post → ∀ node, g.get (.asset k) = some node → ∀ d, d ∈ node.deps →
+    ∃ n0, g0.get (.asset k) = some n0 ∧ d ∈ n0.deps
+
+theorem PInv.settled_nil {env' : Env} {fuel : Nat} {g0 : Graph} {s : St} {g : Graph}
+    (h : PInv env' fuel g0 [] s g) : Settled env' fuel s g :=
+  fun k node c hg ht hc hd => (h.settled k (List.not_mem_nil) node c hg ht hc hd).1
+
+/-- the head key is not reloaded (unregistered, not cached, or static): drop it -/
+theorem pinv_skip {env' : Env} {fuel : Nat} {g0 : Graph} {k : Key} {rest : List Key} {s : St} {g : Graph}
+    (hinv : PInv env' fuel g0 (k :: rest) s g)
+    (hno : ∀ node c, g.get (.asset k) = some node → node.typed = true → s.lookup k = some c → c.dyn = true → False) :
+    PInv env' fuel g0 rest s g := by
+  constructor
+  · intro x hx node c hg ht hc hd
+    by_cases hxk : x = k
+    · subst hxk; exact (hno node c hg ht hc hd).elim
+    · have hx' : x ∉ k :: rest := by
+        intro hm; rcases List.mem_cons.mp hm with e | e
+        · exact hxk e
+        · exact hx e
+      obtain ⟨h1, h2⟩ := hinv.settled x hx' node c hg ht hc hd
+      exact ⟨h1, fun y hy => h2 y (List.mem_cons_of_mem _ hy)⟩
+  · intro x hx node hg d hd
+    exact hinv.olddeps x (List.mem_cons_of_mem _ hx) node hg d hd
+
+/-- the head key is reloaded successfully -/
+theorem pinv_ok {env' : Env} (hS' : env'.Steady) {fuel : Nat} {g0 : Graph} {k : Key} {rest : List Key}
+    {s : St} {g : Graph} {v : Val} {s2 : St}
+    (hinv : PInv env' fuel g0 (k :: rest) s g)
+    (hh : reloadHit env' fuel s k = true) (ho : reloadOut env' fuel s k = .ok v)
+    (hF : ∀ y, y ∈ k :: rest → Dep.asset y ∉ reloadDeps env' fuel s k)
+    (hnd : (k :: rest).Nodup)
+    (h2k : ∃ c2, s2.lookup k = some c2 ∧ c2.val = v ∧ c2.dyn = true)
+    (h2o : ∀ k', k' ≠ k → s2.lookup k' = s.lookup k') :
+    PInv env' fuel g0 rest s2 (g.insertAsset (.asset k) (reloadDeps env' fuel s k)) := by
+  have hL := SameLoaders.refl hS'
+  have hag : ∀ x, Dep.asset k ∉ reloadDeps env' fuel s x →
+      ∀ d ∈ reloadDeps env' fuel s x, AgreeOn env' env' s s2 d := by
+    intro x hx d hd
+    refine agreeOn_same_env (fun y e => h2o y ?_)
+    intro eyk
+    rw [e, eyk] at hd
+    exact hx hd
+  constructor
+  · intro x hx node' c' hg' ht' hc' hd'
+    by_cases hxk : x = k
+    · subst hxk
+      obtain ⟨n', hn', _, hnd'⟩ := insertAsset_get_self g (.asset x) (reloadDeps env' fuel s x)
+      rw [hn'] at hg'
+      have en : n' = node' := by simpa using hg'
+      subst en
+      obtain ⟨c2, hc2, hv, _⟩ := h2k
+      rw [hc2] at hc'
+      have ec : c2 = c' := by simpa using hc'
+      subst ec
+      obtain ⟨r1, r2, r3⟩ := reloadEval_readset hS' hS' hL fuel s s2 x hh (hag x (hF x List.mem_cons_self))
+      refine ⟨⟨r1, Or.inl ⟨?_, ?_⟩⟩, ?_⟩
+      · rw [r2, ho, hv]
+      · intro d; rw [r3, hnd']
+      · intro y hy; rw [r3]; exact hF y (List.mem_cons_of_mem _ hy)
+    · have hx' : x ∉ k :: rest := by
+        intro hm; rcases List.mem_cons.mp hm with e | e
+        · exact hxk e
+        · exact hx e
+      have hne : Dep.asset x ≠ Dep.asset k := fun e => hxk (Dep.asset.inj e)
+      rcases insertAsset_get_ne hne hg' with ⟨n, hn, hnt, hnd'⟩ | ⟨_, hf, _⟩
+      · rw [h2o x hxk] at hc'
+        obtain ⟨h1, h2⟩ := hinv.settled x hx' n c' hn (hnt.trans ht') hc' hd'
+        obtain ⟨t1, t2⟩ := h1.transfer hS' hS' hL (hag x (h2 k List.mem_cons_self)) (c' := c') rfl hnd'.symm
+        exact ⟨t1, fun y hy => by rw [t2]; exact h2 y (List.mem_cons_of_mem _ hy)⟩
+      · rw [hf] at ht'; cases ht'
+  · intro x hx node' hg' d hd
+    have hxk : x ≠ k := fun e => (List.nodup_cons.mp hnd).1 (e ▸ hx)
+    have hne : Dep.asset x ≠ Dep.asset k := fun e => hxk (Dep.asset.inj e)
+    rcases insertAsset_get_ne hne hg' with ⟨n, hn, _, hnd'⟩ | ⟨_, _, he⟩
+    · exact hinv.olddeps x (List.mem_cons_of_mem _ hx) n hn d (hnd' ▸ hd)
+    · rw [he] at hd; cases hd
+
+/-- the head key's reload fails: its entry keeps the previous value, its node gains what the failed
+attempt read -/
+theorem pinv_err {env' : Env} (hS' : env'.Steady) {fuel : Nat} {g0 : Graph} {k : Key} {rest : List Key}
+    {s : St} {g : Graph} {node : GNode} {e : LErr} {s2 : St}
+    (hinv : PInv env' fuel g0 (k :: rest) s g)
+    (hg : g.get (.asset k) = some node)
+    (hh : reloadHit env' fuel s k = true) (ho : reloadOut env' fuel s k = .err e)
+    (hF : ∀ y, y ∈ k :: rest → Dep.asset y ∉ reloadDeps env' fuel s k)
+    (hnd : (k :: rest).Nodup)
+    (h2 : ∀ k', s2.lookup k' = s.lookup k') :
+    PInv env' fuel g0 rest s2 (g.addDeps (.asset k) (reloadDeps env' fuel s k)) := by
+  have hL := SameLoaders.refl hS'
+  have hag : ∀ x, ∀ d ∈ reloadDeps env' fuel s x, AgreeOn env' env' s s2 d :=
+    fun x d _ => agreeOn_same_env (fun y _ => h2 y)
+  constructor
+  · intro x hx node' c' hg' ht' hc' hd'
+    by_cases hxk : x = k
+    · subst hxk
+      obtain ⟨n', hn', _, hnd'⟩ := addDeps_get_self (deps := reloadDeps env' fuel s x) hg
+      rw [hn'] at hg'
+      have en : n' = node' := by simpa using hg'
+      subst en
+      obtain ⟨r1, r2, r3⟩ := reloadEval_readset hS' hS' hL fuel s s2 x hh (hag x)
+      refine ⟨⟨r1, Or.inr ⟨e, ?_, ?_⟩⟩, ?_⟩
+      · rw [r2, ho]
+      · intro d hd; rw [r3] at hd; exact (hnd' d).mpr (Or.inr hd)
+      · intro y hy; rw [r3]; exact hF y (List.mem_cons_of_mem _ hy)
+    · have hx' : x ∉ k :: rest := by
+        intro hm; rcases List.mem_cons.mp hm with e | e
+        · exact hxk e
+        · exact hx e
+      have hne : Dep.asset x ≠ Dep.asset k := fun e => hxk (Dep.asset.inj e)
+      rcases addDeps_get_ne hne hg' with ⟨n, hn, hnt, hnd'⟩ | ⟨_, hf, _⟩
+      · rw [h2 x] at hc'
+        obtain ⟨h1, h3⟩ := hinv.settled x hx' n c' hn (hnt.trans ht') hc' hd'
+        obtain ⟨t1, t2⟩ := h1.transfer hS' hS' hL (hag x) (c' := c') rfl hnd'.symm
+        exact ⟨t1, fun y hy => by rw [t2]; exact h3 y (List.mem_cons_of_mem _ hy)⟩
+      · rw [hf] at ht'; cases ht'
+  · intro x hx node' hg' d hd
+    have hxk : x ≠ k := fun e => (List.nodup_cons.mp hnd).1 (e ▸ hx)
+    have hne : Dep.asset x ≠ Dep.asset k := fun e => hxk (Dep.asset.inj e)
+    rcases addDeps_get_ne hne hg' with ⟨n, hn, _, hnd'⟩ | ⟨_, _, he⟩
+    · exact hinv.olddeps x (List.mem_cons_of_mem _ hx) n hn d (hnd' ▸ hd)
+    · rw [he] at hd; cases hd
+
+/-! ## The reloads of a pass, and the hypotheses on them -/
+
+/-- one step of a pass: the key, the keys that come later, and the cache / reloader state the step
+starts from -/
+structure PassStep where
+  key : Key
+  later : List Key
+  s : St
+  r : RSt
+
+/-- the steps of `reloadAll env fuel keys x`, in order -/
+def passSteps (env : Env) (fuel : Nat) : List Key → St × RSt → List PassStep
+  | [], _ => []
+  | k :: ks, x => ⟨k, ks, x.1, x.2⟩ :: passSteps env fuel ks (reloadAll env fuel [k] x)
+
+/-- the step really re-evaluates its key: the key is registered (typed node `node`), cached, and its
+entry `c` is dynamic -/
+def PassStep.Performs (st : PassStep) (node : GNode) (c : Cell) : Prop :=
+  st.r.graph.get (.asset st.key) = some node ∧ node.typed = true ∧ st.s.lookup st.key = some c ∧ c.dyn = true
+
+/-- **excludes F-C05d**: every re-evaluation of the pass is a tracked hit-only run — in particular
+it loads no asset that is not cached yet (no miss during the pass) -/
+def NoMissInPass (env : Env) (fuel : Nat) (steps : List PassStep) : Prop :=
+  ∀ st, st ∈ steps → ∀ node c, st.Performs node c → reloadHit env fuel st.s st.key = true
+
+/-- every re-evaluation of the pass returns a value or an error (no panic, no fuel exhaustion) -/
+def ReloadsReturn (env : Env) (fuel : Nat) (steps : List PassStep) : Prop :=
+  ∀ st, st ∈ steps → ∀ node c, st.Performs node c →
+    (∃ v, reloadOut env fuel st.s st.key = .ok v) ∨ (∃ e, reloadOut env fuel st.s st.key = .err e)
+
+/-- **excludes F-C05e**: no re-evaluation of the pass acquires a NEW dependency (one that is not in
+its node before the step) on the asset being reloaded itself or on one reloaded LATER in the pass -/
+def NoRewireOntoPending (env : Env) (fuel : Nat) (steps : List PassStep) : Prop :=
+  ∀ st, st ∈ steps → ∀ node c, st.Performs node c →
+    ∀ y, Dep.asset y ∈ reloadDeps env fuel st.s st.key → Dep.asset y ∉ node.deps → y ≠ st.key ∧ y ∉ st.later
+
+/-- **Processing one key** keeps the invariant. -/
+theorem pinv_step {env' : Env} (hS' : env'.Steady) {fuel : Nat} {g0 : Graph} {k : Key} {rest : List Key}
+    {s : St} {r : RSt}
+    (hinv : PInv env' fuel g0 (k :: rest) s r.graph) (hdead : r.dead = false)
+    (hnd : (k :: rest).Nodup) (hord : DepsFirst g0 (k :: rest))
+    (hmiss : ∀ node c, PassStep.Performs ⟨k, rest, s, r⟩ node c → reloadHit env' fuel s k = true)
+    (hends : ∀ node c, PassStep.Performs ⟨k, rest, s, r⟩ node c →
+      (∃ v, reloadOut env' fuel s k = .ok v) ∨ (∃ e, reloadOut env' fuel s k = .err e))
+    (hrew : ∀ node c, PassStep.Performs ⟨k, rest, s, r⟩ node c →
+      ∀ y, Dep.asset y ∈ reloadDeps env' fuel s k → Dep.asset y ∉ node.deps → y ≠ k ∧ y ∉ rest) :
+    PInv env' fuel g0 rest (reloadAll env' fuel [k] (s, r)).1 (reloadAll env' fuel [k] (s, r)).2.graph ∧
+    (reloadAll env' fuel [k] (s, r)).2.dead = false := by
+  by_cases hp : ∃ node c, r.graph.get (.asset k) = some node ∧ node.typed = true ∧ s.lookup k = some c ∧ c.dyn = true
+  · obtain ⟨node, c, hg, ht, hc, hdyn⟩ := hp
+    have hper : PassStep.Performs ⟨k, rest, s, r⟩ node c := ⟨hg, ht, hc, hdyn⟩
+    have hh := hmiss node c hper
+    have hF : ∀ y, y ∈ k :: rest → Dep.asset y ∉ reloadDeps env' fuel s k := by
+      intro y hy hmem
+      by_cases hold : Dep.asset y ∈ node.deps
+      · obtain ⟨n0, hn0, hd0⟩ := hinv.olddeps k List.mem_cons_self node hg _ hold
+        exact hord.head_deps hnd hn0 hd0 hy
+      · obtain ⟨h1, h2⟩ := hrew node c hper y hmem hold
+        rcases List.mem_cons.mp hy with e | e
+        · exact h1 e
+        · exact h2 e
+    rcases hends node c hper with ⟨v, ho⟩ | ⟨e, ho⟩
+    · obtain ⟨e1, e2, e3⟩ := reloadAll_one_ok hdead hg ht hc hdyn hh ho
+      rw [e1]
+      exact ⟨pinv_ok hS' hinv hh ho hF hnd e2 e3, hdead⟩
+    · obtain ⟨e1, e2⟩ := reloadAll_one_err hdead hg ht hc hdyn hh ho
+      rw [e1]
+      exact ⟨pinv_err hS' hinv hg hh ho hF hnd e2, hdead⟩
+  · have hsame : reloadAll env' fuel [k] (s, r) = (s, r) := by
+      by_cases hreg : ∃ node, r.graph.get (.asset k) = some node ∧ node.typed = true
+      · obtain ⟨node, hg, ht⟩ := hreg
+        refine reloadAll_one_skipped (fun c hc => ?_)
+        cases hdc : c.dyn with
+        | false => rfl
+        | true => exact (hp ⟨node, c, hg, ht, hc, hdc⟩).elim
+      · refine reloadAll_one_unregistered (fun node hg => ?_)
+        cases htt : node.typed with
+        | false => rfl
+        | true => exact (hreg ⟨node, hg, htt⟩).elim
+    rw [hsame]
+    exact ⟨pinv_skip hinv (fun node c h1 h2 h3 h4 => hp ⟨node, c, h1, h2, h3, h4⟩), hdead⟩
+
+/-- **The pass**: from the invariant for the whole list to `Settled` at the end. -/
+theorem reloadAll_converges {env' : Env} (hS' : env'.Steady) {fuel : Nat} {g0 : Graph} :
+    ∀ (post : List Key) (s : St) (r : RSt),
+    PInv env' fuel g0 post s r.graph → r.dead = false → post.Nodup → DepsFirst g0 post →
+    NoMissInPass env' fuel (passSteps env' fuel post (s, r)) →
+    ReloadsReturn env' fuel (passSteps env' fuel post (s, r)) →
+    NoRewireOntoPending env' fuel (passSteps env' fuel post (s, r)) →
+    Settled env' fuel (reloadAll env' fuel post (s, r)).1 (reloadAll env' fuel post (s, r)).2.graph ∧
+    (reloadAll env' fuel post (s, r)).2.dead = false := by
+  intro post
+  induction post with
+  | nil => intro s r hinv hdead _ _ _ _ _; exact ⟨hinv.settled_nil, hdead⟩
+  | cons k rest ih =>
+    intro s r hinv hdead hnd hord h1 h2 h3
+    have hhead : (⟨k, rest, s, r⟩ : PassStep) ∈ passSteps env' fuel (k :: rest) (s, r) := List.mem_cons_self
+    have htail : ∀ st, st ∈ passSteps env' fuel rest (reloadAll env' fuel [k] (s, r)) →
+        st ∈ passSteps env' fuel (k :: rest) (s, r) := fun st h => List.mem_cons_of_mem _ h
+    obtain ⟨i1, i2⟩ := pinv_step hS' hinv hdead hnd hord (h1 _ hhead) (h2 _ hhead) (h3 _ hhead)
+    rw [reloadAll_cons_eq]
+    exact ih (reloadAll env' fuel [k] (s, r)).1 (reloadAll env' fuel [k] (s, r)).2 i1 i2
+      (List.nodup_cons.mp hnd).2 hord.tail
+      (fun st h => h1 st (htail st h)) (fun st h => h2 st (htail st h)) (fun st h => h3 st (htail st h))
+
+/-! ## The invariant holds at the start of a pass -/
+
+theorem depsFirst_of_topo {g : Graph} {fuel : Nat} {changed : List Dep} {keys : List Key} {rank : Dep → Nat}
+    (hI : g.Inverse) (hr : ∀ a rs b, g.rdepsOf a = some rs → b ∈ rs → rank b < rank a)
+    (h : topo g fuel changed = some keys) : DepsFirst g keys := by
+  intro p1 y p2 e k n hn hy
+  obtain ⟨m, hm, hk⟩ := hI (.asset k) (.asset y) ⟨n, hn, hy⟩
+  exact topo_order hr h p1 y p2 e m.rdeps (rdepsOf_eq_some.mpr ⟨m, hm, rfl⟩) k hk (by rw [hn]; simp)
+
+/-- an asset that is not in the reload list depends on nothing that is reachable from a notified
+entry -/
+theorem unaffected_deps {g : Graph} {fuel : Nat} {toReload : List Dep} {keys : List Key}
+    (hI : g.Inverse) (h : topo g fuel toReload = some keys) {x : Key} (hx : x ∉ keys)
+    {node : GNode} (hg : g.get (.asset x) = some node) {d : Dep} (hd : d ∈ node.deps) :
+    g.get d ≠ none ∧ ∀ c ∈ toReload, ¬ Reach g.rdepsOf c d := by
+  obtain ⟨m, hm, hk⟩ := hI (.asset x) d ⟨node, hg, hd⟩
+  refine ⟨by rw [hm]; simp, ?_⟩
+  intro c hc hr
+  exact hx (topo_complete h c hc x (Reach.step hr (rdepsOf_eq_some.mpr ⟨m, hm, rfl⟩) hk) (by rw [hg]; simp))
+
+/-- **Start of the pass.** If everything was settled under the old environment, the new environment
+differs from it only on `changed` entries, and every changed entry the graph knows has been
+notified, then every asset outside the reload list is settled under the new environment already and
+reads no asset of the list. -/
+theorem pinv_init {env env' : Env} (hS : env.Steady) (hS' : env'.Steady) (hL : SameLoaders env env')
+    {fuel : Nat} {s : St} {g : Graph} {changed toReload : List Dep} {keys : List Key}
+    (hset : Settled env fuel s g) (hI : g.Inverse)
+    (htopo : topo g fuel toReload = some keys)
+    (hfile : ∀ id ext, Dep.file id ext ∉ changed → env'.read 0 id ext = env.read 0 id ext)
+    (hdir : ∀ id, Dep.dir id ∉ changed → env'.readDir 0 id = env.readDir 0 id)
+    (hnot : ∀ d, d ∈ changed → g.get d ≠ none → d ∈ toReload) :
+    PInv env' fuel g keys s g := by
+  constructor
+  · intro x hx node c hg ht hc hd
+    have h0 := hset x node c hg ht hc hd
+    have hunch : ∀ d, d ∈ node.deps → d ∉ changed := by
+      intro d hdn hch
+      obtain ⟨u1, u2⟩ := unaffected_deps hI htopo hx hg hdn
+      exact u2 d (hnot d hch u1) (Reach.refl d)
+    have hag : ∀ d ∈ reloadDeps env fuel s x, AgreeOn env env' s s d := by
+      intro d hdd
+      have hdn := h0.deps_sub d hdd
+      cases d with
+      | file id ext => exact hfile id ext (hunch _ hdn)
+      | dir id => exact hdir id (hunch _ hdn)
+      | asset y => rfl
+    obtain ⟨t1, t2⟩ := h0.transfer hS hS' hL hag (c' := c) (node' := node) rfl rfl
+    refine ⟨t1, ?_⟩
+    intro y hy hmem
+    rw [t2] at hmem
+    obtain ⟨_, u2⟩ := unaffected_deps hI htopo hx hg (h0.deps_sub _ hmem)
+    obtain ⟨_, c0, hc0, hr0⟩ := topo_only_reachable htopo y hy
+    exact u2 c0 hc0 hr0
+  · intro x _ node hg d hd
+    exact ⟨node, hg, hd⟩
+
 end AmVerif.Model
